@@ -215,7 +215,18 @@ class Ev:
             raise _Ret(self.ev(st.value) if st.value is not None else None)
         if isinstance(st, ast.For):
             broke = False
-            for x in list(self.ev(st.iter)):
+            seq = self.ev(st.iter)
+            if type(seq) is list:
+                # a list that the body changes while it is traversed: the iterator goes by position, as Python's does
+                def by_position(lst=seq):
+                    i = 0
+                    while i < len(lst):
+                        yield lst[i]
+                        i += 1
+                items = by_position()
+            else:
+                items = list(seq)
+            for x in items:
                 self.assign(st.target, x)
                 try:
                     self.block(st.body)
